@@ -279,6 +279,24 @@ def rule_subgraph_refs(repo, rep):
     po = repo.mod("tflite_reader").func("TFLiteSubgraph.parse_operator")
     resolved = {x.slice.value for x in ast.walk(po) if isinstance(x, ast.Subscript) and str(norm(x.value)) == "op.attrs" and isinstance(x.slice, ast.Constant) and isinstance(x.slice.value, str)
                 and x.slice.value.endswith("_subgraph_index")}
+    # ... and the callee's tensors are marked live at *every* call site: a visit of a subgraph that was visited before (two WHILE operators
+    # sharing cond / body) may not return before the ranges have been extended to the current time
+    lr = repo.mod("live_range")
+    ex = lr.func("extract_live_ranges_from_cascaded_passes")
+    early = []
+    for i_ in ast.walk(ex):
+        if isinstance(i_, ast.If) and "processed_subgraphs" in str(norm(i_.test)):
+            body_src = ast.Module(body=i_.body, type_ignores=[])
+            returns = any(isinstance(x, ast.Return) for x in ast.walk(body_src))
+            marks = any(isinstance(x, ast.Call) and isinstance(x.func, ast.Attribute) and x.func.attr == "mark_usage" for x in ast.walk(body_src))
+            if returns and not marks:
+                early.append(i_)
+    nmarks = sum(1 for x in ast.walk(ex) if isinstance(x, ast.Call) and isinstance(x.func, ast.Attribute) and x.func.attr == "mark_usage")
+    if nmarks < 3:
+        raise AnalysisError("extract_live_ranges_from_cascaded_passes: mark_usage calls not found")
+    rep.check(not early, "C12-g", "ethosu/vela/live_range.py:extract_live_ranges_from_cascaded_passes", "a subgraph that is entered again marks its tensors live at the new call site",
+              "`if sg in lr_graph.processed_subgraphs: return lr_graph`: the tensors of a subgraph shared by two control-flow operators are live only around the first one (demonstrated: two WHILE operators "
+              "sharing cond / body: main-graph tensor 'neg5' at [528, 1040) is live across the second WHILE whose body tensor 'neg3' is at [528, 1040))")
     for mname in sorted(members):
         rep.check(mname in resolved, "C12-g", "ethosu/vela/tflite_reader.py:TFLiteSubgraph.parse_operator", f"option `{mname}` is resolved into the operator's attrs['subgraph']",
                   f"`{mname}` is read from the file but never resolved: the subgraph it names is not visited by live-range extraction, its tensors keep address None and are written with offset 0 "
